@@ -15,12 +15,13 @@ every output file.
 
 ## The inventory statement
 
-    theorem all_sites_order_insensitive : ∀ s ∈ sites, s.consumer.insensitive = true
+    theorem all_site_labels_insensitive : ∀ s ∈ sites, s.consumer.insensitive = true
 
-holds of the current code (by `decide` over the regenerated table).  It was FALSE until the `fix:`
+(a statement about the consumer LABELS of the table, see its docstring) holds of the current code
+(by `decide` over the regenerated table).  It was FALSE until the `fix:`
 commits 796b9eb (MoonBit: `builtins`, `ffi_imports`, `export` written with `uwriteln!` in hash order)
 and 4904f95 (C#: `bidirectional_types_src` joined in hash order, `by_resource` fed with HashMap keys)
-of /repo: ten sites were `emitted`, `all_sites_order_insensitive_full_false` refuted the statement at
+of /repo: ten sites were `emitted`, `all_sites_order_insensitive_full_false` (the theorem's name at the time) refuted the statement at
 the time and the k-process diff reproduced the nondeterminism of both backends.  The containers are
 BTree-based / sorted now; a new `emitted` or unclassified site makes the theorem fail again.
 `emit_not_perm_invariant` records why `emitted` is not an acceptable consumer.
@@ -133,10 +134,14 @@ theorem emit_not_perm_invariant :
 
 /-! ## the inventory -/
 
-/-- every inventoried consumer of a hash iteration is order-insensitive; in particular no site is
-unclassified (a new, changed or unrecognised site appears as `.unclassified` and breaks this) and
-none writes its elements to the output in iteration order -/
-theorem all_sites_order_insensitive : ∀ s ∈ sites, s.consumer.insensitive = true := by decide
+/-- every inventoried site carries a consumer LABEL of an order-insensitive class.  This is a
+statement about the labels of the table (7 assigned by automatic syntactic rules, the others by
+hand in tools/hash_sites_manual.json, keyed by fingerprint): that the code at a site really behaves
+as its class is trusted, not proved — the permutation lemmas above are about the classes and are
+not instantiated at the individual sites.  What the theorem does guarantee: no site is unclassified
+(a new, changed or unrecognised site appears as `.unclassified` and breaks it) and none is labelled
+as writing its elements to the output in iteration order. -/
+theorem all_site_labels_insensitive : ∀ s ∈ sites, s.consumer.insensitive = true := by decide
 
 theorem no_unclassified_site :
     ∀ s ∈ sites, s.consumer ≠ .unclassified ∧ s.consumer ≠ .firstMatch ∧ s.consumer ≠ .emitted := by decide
